@@ -69,8 +69,21 @@ type VsimCtxInfo struct {
 }
 
 func VsimContexts(s *System) []VsimCtxInfo {
+	// collect first, in a deterministic order: IsPaused() below is a scheduling point of the simulator and must not
+	// happen inside the (randomly ordered) iteration of the registry
+	var ctxs []*Context
+	if s.Context != nil {
+		ctxs = append(ctxs, s.Context)
+	}
+	s.actorContexts.RawRange(func(k, v any) bool {
+		if c, ok := v.(*Context); ok {
+			ctxs = append(ctxs, c)
+		}
+		return true
+	})
+	sort.Slice(ctxs, func(i, j int) bool { return ctxs[i].ref.GetPath() < ctxs[j].ref.GetPath() })
 	var out []VsimCtxInfo
-	add := func(c *Context) {
+	for _, c := range ctxs {
 		ci := VsimCtxInfo{Path: c.ref.GetPath(), State: c.state, Paused: c.mailbox.IsPaused(), Zombie: c.zombie}
 		if c.parent != nil {
 			ci.Parent = c.parent.GetPath()
@@ -81,16 +94,6 @@ func VsimContexts(s *System) []VsimCtxInfo {
 		sort.Strings(ci.Children)
 		out = append(out, ci)
 	}
-	if s.Context != nil {
-		add(s.Context)
-	}
-	s.actorContexts.RawRange(func(k, v any) bool {
-		if c, ok := v.(*Context); ok {
-			add(c)
-		}
-		return true
-	})
-	sort.Slice(out, func(i, j int) bool { return out[i].Path < out[j].Path })
 	return out
 }
 
